@@ -57,7 +57,7 @@ def main():
             c.run(label, 'rsym.hb', 'ExactInference', kw,
                   required_witnesses=() if 'attributes' in label or 'text' in label else ('some child Optional',))
         for label, kw in steps(c.tier):
-            c.run(label, 'rsym.hb', 'InductiveStep', kw, time_cap=250 if c.tier == 'quick' else 900, path_cap=400000 if c.tier == 'quick' else 4000000)
+            c.run(label, 'rsym.hb', 'InductiveStep', kw, time_cap=600 if c.tier == 'quick' else 900, path_cap=400000 if c.tier == 'quick' else 4000000)
     c.finish(bounds={'skeletons': [l for l, _ in configs(c.tier)], 'inductive_steps': [l for l, _ in steps(c.tier)], 'depth': '<= 3 element levels below the root (4 in the thorough free-name family)', 'name_pool': '<= 4 distinct names per position'},
              outside=['documents wider/deeper than the listed skeletons', 'names that the code would inspect character by character (none on the unchanged tree)', 'quick_xml tokenising'],
              trusted=['rsym interpreter + library models (re-validated by the conformance gate on every run)', 'z3', 'tools/replay (native replay)'],
